@@ -139,7 +139,7 @@ func c07Run(rec *evid.Rec, f fataler, cfg c07Cfg) {
 	w.C.Faults = func(call *sim.Call) sim.FaultKind {
 		// route command-mid-sync: `kubectl-eds canary fail` lands after the canary replica set's reconcile has read
 		// the object and right before it writes its status (the write must not erase the user's mark)
-		if midSync && !midDone && call.Actor == sim.ActorERS && call.Verb == "status-update" && call.Name == crs {
+		if midSync && !midDone && call.Actor == sim.ActorERS && (call.Verb == "status-update" || call.Verb == "status-patch") && call.Name == crs {
 			midDone = true
 			failByUser()
 			return sim.FaultNone
